@@ -58,6 +58,10 @@ func (o apiOp) lua() string {
 		return fmt.Sprintf("rec('m' .. get_memory(%d, %d))", o.a, o.v)
 	case "gc":
 		return "rec(get_cycles())"
+	case "rl":
+		return fmt.Sprintf("rec(read_byte_long(%d))", o.a)
+	case "wl":
+		return fmt.Sprintf("write_byte_long(%d, %d)", o.a, o.v)
 	case "la":
 		return "rec(load_address)"
 	case "pl":
@@ -80,6 +84,10 @@ func (o apiOp) wire() string {
 		return fmt.Sprintf("sm:%x:%s", o.a, o.s)
 	case "gm":
 		return fmt.Sprintf("gm:%x:%x", o.a, o.v)
+	case "rl":
+		return fmt.Sprintf("rl:%x", o.a)
+	case "wl":
+		return fmt.Sprintf("wl:%x:%x", o.a, o.v)
 	}
 	return o.name
 }
@@ -104,6 +112,65 @@ func flagString(r *rng.R) string {
 		}
 	}
 	return string(b)
+}
+
+// bankedOps: on a banked machine, switch a bank through the API and access the window through both the 16-bit
+// calls and the linear calls: the script must see exactly what a program would see at that moment
+func bankedOps(r *rng.R, spec string) []apiOp {
+	ops := []apiOp{}
+	winLo, winLen := 0, 0
+	switch {
+	case strings.HasPrefix(spec, "XSixteen"):
+		banks := 64
+		if spec == "XSixteen2048K" {
+			banks = 256
+		}
+		if r.Bool() {
+			ops = append(ops, apiOp{name: "wb", a: 0, v: r.Intn(banks)})
+			winLo, winLen = 0xA000, 0x2000
+		} else {
+			ops = append(ops, apiOp{name: "wb", a: 1, v: r.Intn(32)})
+			winLo, winLen = 0xC000, 0x4000
+		}
+	case strings.HasPrefix(spec, "GeoRam"):
+		blocks := 32
+		if spec == "GeoRam_2048K" {
+			blocks = 128
+		}
+		ops = append(ops, apiOp{name: "wb", a: 0xDFFF, v: r.Intn(blocks)}, apiOp{name: "wb", a: 0xDFFE, v: r.Intn(64)})
+		winLo, winLen = 0xDE00, 0x100
+	case strings.HasPrefix(spec, "F256"):
+		ops = append(ops, apiOp{name: "wb", a: 1, v: r.Intn(8)})
+		winLo, winLen = 0xC000, 0x2000
+	default:
+		return ops
+	}
+	for i := 0; i < 1+r.Intn(3); i++ {
+		a := winLo + r.Intn(winLen)
+		switch r.Intn(4) {
+		case 0:
+			ops = append(ops, apiOp{name: "wb", a: a, v: int(r.BByte())}, apiOp{name: "rb", a: a})
+		case 1:
+			ops = append(ops, apiOp{name: "rb", a: a})
+		case 2:
+			l := 1 + r.Intn(12)
+			if a+l > winLo+winLen {
+				a = winLo + winLen - l
+			}
+			data := make([]uint8, l)
+			for j := range data {
+				data[j] = r.Byte()
+			}
+			ops = append(ops, apiOp{name: "sm", a: a, s: hexOf(data)}, apiOp{name: "gm", a: a, v: l})
+		case 3:
+			la := r.Intn(int(linTotals[spec]))
+			if r.Bool() {
+				ops = append(ops, apiOp{name: "wl", a: la, v: int(r.BByte())})
+			}
+			ops = append(ops, apiOp{name: "rl", a: la}, apiOp{name: "rb", a: a})
+		}
+	}
+	return ops
 }
 
 func genApiOps(r *rng.R, n int, flat bool) []apiOp {
@@ -193,7 +260,7 @@ func apiCase(r *rng.R, dir string) string {
 	model := r.Intn(2)
 	spec := "Linear64K"
 	if r.Chance(30) {
-		spec = []string{"Linear16K", "Linear32K", "XSixteen512K", "GeoRam_512K", "F256_512K"}[r.Intn(5)]
+		spec = []string{"Linear16K", "Linear32K", "XSixteen512K", "GeoRam_512K", "F256_512K", "XSixteen2048K", "GeoRam_2048K", "F256_768K"}[r.Intn(8)]
 	}
 	flat := spec == "Linear64K"
 	iters := 1 + r.Intn(2)
@@ -214,12 +281,18 @@ func apiCase(r *rng.R, dir string) string {
 		entry = loadAt + observerEntry1
 	}
 	p1 := genApiOps(r, 2+r.Intn(8), flat)
+	if !flat && r.Chance(70) {
+		p1 = append(p1, bankedOps(r, spec)...)
+	}
 	if r.Chance(50) {
 		p1 = append(p1, apiOp{name: "wb", a: 0x0320, v: int(r.BByte())})
 	}
 	p1 = append(p1, apiOp{name: "sp", v: entry})
 	p2 := []apiOp{{name: "ga"}, {name: "gx"}, {name: "gy"}, {name: "gs"}, {name: "gp"}, {name: "gf"}, {name: "gc"}, {name: "gm", a: 0x0300, v: 8}, {name: "rb", a: 0x0321}}
 	p2 = append(p2, genApiOps(r, r.Intn(4), flat)...)
+	if !flat && r.Chance(50) {
+		p2 = append(p2, bankedOps(r, spec)...)
+	}
 	p2 = append(p2, apiOp{name: "la"}, apiOp{name: "pl"})
 
 	var sb strings.Builder
